@@ -704,7 +704,7 @@ func (e *Engine) truncDiv(a, b Term) Term {
 func (e *Engine) valEq(x, y Val) Term {
 	// nil comparisons with differently shaped constants
 	if len(x.L) != len(y.L) {
-		panic(unsupported("comparison of values with different layouts %s vs %s", x.T, y.T))
+		panic(unsupported("comparison of values with different layouts %s (%d leaves) vs %s (%d leaves)", x.T, len(x.L), y.T, len(y.L)))
 	}
 	switch x.T.Underlying().(type) {
 	case *types.Slice:
